@@ -9,7 +9,7 @@ CHECKS = {
         category="exploration",
         text="Hypothesis-generated molecules / ensembles (all elements, every enum member, nested attributes incl. bytes, numpy arrays and int keys, NaN/inf "
              "coordinates, 0 atoms, 0 conformers) are stored in fresh MoleculeLibrary / ConformerLibrary files with four buffer sizes and read back in-session, "
-             "in a later session and through a new handle (every read is followed by an in-place edit of the result and a second read of the same key, which must again show what is stored; the Mapping views items() / values() pair every key with its own object); optionally the same objects are then edited in place and stored again under new keys (old keys keep the old state), molecules are also stored as a float32-coordinate subclass, objects may carry a parallel bond, half of their bonds reach their state by assignment after a plain connect(), attribute dictionaries may be keyed by tuples, some of their atoms may also sit in a foreign (live or dead) container, names go in through the setter (also the empty one), libraries are opened with several `encoding=` values; an independent field-by-field snapshot decides equality at float32 precision. Legacy (v1) files are "
+             "in a later session and through a new handle (every read is followed by an in-place edit of the result and a second read of the same key, which must again show what is stored; the Mapping views items() / values() pair every key with its own object); optionally the same objects are then edited in place and stored again under new keys (old keys keep the old state), molecules are also stored as a float32-coordinate subclass, objects may carry a parallel bond, half of their bonds reach their state by assignment after a plain connect(), attribute dictionaries may be keyed by tuples, some of their atoms may also sit in a foreign (live or dead) container, names go in through the setter (also the empty one), atom annotations are re-asserted after bonding, libraries are opened with several `encoding=` values; an independent field-by-field snapshot decides equality at float32 precision. Legacy (v1) files are "
              "additionally produced by the harness' own encoder and read through the library. A round-trip oracle over generated inputs is exactly what the "
              "input-quantified statement needs.",
         design_ref="DESIGN.md section 5, C01",
@@ -20,7 +20,7 @@ CHECKS = {
     "C05": dict(
         category="exploration",
         text="Model-based stateful testing: generated edit histories (<=40 ops: add/new/del atom by object, index, label, Element; connect; append_bond(s)/extend_bonds "
-             "with foreign atoms; del_bond; remove_substituent; add_implicit_hydrogens; substructure writes and bond deletion through a view, re-attachment of deleted atoms, atoms stolen from another molecule, parallel and self bonds (also on atoms new to the molecule), in-place charge writes, the source / a fresh clone overwritten in place, deletion by negative index, remove_substituent with atoms named as objects / indices / labels, a donor striking a stolen atom off its list, add_atom of an atom that is already there) are interpreted on Molecule and Structure and on an "
+             "with foreign atoms; del_bond; remove_substituent; add_implicit_hydrogens; substructure writes and bond deletion through a view, re-attachment of deleted atoms, atoms stolen from another molecule, parallel and self bonds (also on atoms new to the molecule), in-place charge writes, the source / a fresh clone overwritten in place, deletion by negative index, remove_substituent with atoms named as objects / indices / labels, a donor striking a stolen atom off its list, add_atom of an atom that is already there, charges first assigned from integers) are interpreted on Molecule and Structure and on an "
              "identity-keyed reference model, invariants after every step; plus ALL op sequences up to length 3/4 over a 29-letter alphabet. The statement quantifies "
              "over histories, which a model-based interpreter explores directly.",
         design_ref="DESIGN.md section 5, C05",
@@ -42,7 +42,7 @@ CHECKS = {
         text="Exhaustive vocabulary leg: every Element x AtomType x AtomGeom (44 982 on this tree) as a one-atom molecule and every BondType on a two-atom "
              "molecule is written, must be accepted by the reader with the element recovered, and the second write must reproduce the text. Random leg: generated "
              "Molecule / Structure / Substructure-view / ConformerEnsemble objects round-trip field by field at the written precision through loads / loads_all / load(stream) / "
-             "ConformerEnsemble.loads_mol2, plus the text fixed point, a second write after an in-place edit, objects that were themselves read from another program's mol2 flavour (other header types) before their charges were assigned, and texts beyond 1 MiB / 4 MiB.",
+             "ConformerEnsemble.loads_mol2, plus the text fixed point, a second write after an in-place edit (incl. an atom replaced at constant atom count), objects that were themselves read from another program's mol2 flavour (other header types) before their charges were assigned, and texts beyond 1 MiB / 4 MiB.",
         design_ref="DESIGN.md section 5, C07",
         note="Labels whitespace-free; names one stripped line; |x|<1e5; isotopes / formal charges / stereo / attributes are not expressible in mol2 and not compared.",
         technique="round-trip + fixed-point property testing; exhaustive enumeration of the emitted token vocabulary",
@@ -50,7 +50,7 @@ CHECKS = {
     "C08": dict(
         category="exploration",
         text="Round-trip legs over generated geometries, 1-5 frame ensembles and multi-molecule xyz texts (consecutive frames of equal size and different elements) through every xyz loader entry point (also one open handle read piecemeal or positioned at a later geometry, and ensembles written through ml.dump(path, mode w / a)) (count, order, elements, coordinates at "
-             "the written precision incl. texts beyond 1 MiB / 4 MiB, blank and non-ASCII names, Substructure views, the dump_xyz(fmt=...) option with 3-12 decimals and scientific formats, second write identical, second write after an in-place edit follows the edit); metamorphic unit leg: the same Angstrom geometry expressed in each DistanceUnit member with the "
+             "the written precision incl. texts beyond 1 MiB / 4 MiB, blank and non-ASCII names, names that read like unit words (Au-..., bohr, a.u.), ensembles that grow between two writes, Substructure views, the dump_xyz(fmt=...) option with 3-12 decimals and scientific formats, second write identical, second write after an in-place edit follows the edit); metamorphic unit leg: the same Angstrom geometry expressed in each DistanceUnit member with the "
              "physical factor held by the harness (CODATA), read with source_units through xyz and mol2 single / load_all / ensemble loaders, pairwise distances "
              "compared with the Angstrom original.",
         design_ref="DESIGN.md section 5, C08",
@@ -60,7 +60,7 @@ CHECKS = {
     "C09": dict(
         category="exploration",
         text="The configuration matrix {load, loads, load_all, loads_all, dump, dumps} x formats {xyz, mol2, cdxml, obabel-only, nonsense} x source/target kind "
-             "{str path, Path, string, open stream} x fmt {explicit, from suffix} x otype {'molecule','ensemble', Structure, Molecule, ConformerEnsemble} x name {given, not} "
+             "{str path, Path, string, open stream} x fmt {explicit, from suffix} x otype {'molecule','ensemble', Structure, Molecule, ConformerEnsemble} x name {given (identifier-like or with punctuation), not} "
              "x mode {a, w} x writer options {none, write_header, unknown option} x cdxml retrieval key {none, first / last label, unknown label, positional, empty} x stream kind {StringIO, real file, tempfile wrapper, codecs writer, plain object with write()} x path alias {symbolic link, hard link} x non-regular source path {/dev/fd pipe} is enumerated completely on bundled files and sampled on generated single / multi-frame inputs, also with an unclean END of the file (cut inside a later structure, blank lines, a stray line: whatever the class methods make of it, the entry points make the same); a history leg re-uses one path with new contents (load, rewrite, load again). Differential oracle: same type and snapshot as the "
              "class method (cdxml totals additionally against the sum of the drawn charges / radicals), list where promised, name honoured, text in the caller's stream which stays open, no leaked descriptor, ValueError for unsupported formats.",
         design_ref="DESIGN.md section 5, C09",
@@ -70,7 +70,7 @@ CHECKS = {
     "C10": dict(
         category="fault_enumeration",
         text="Every truncation point (all line boundaries + every byte of the last record) of 10 bundled files and of generated multi-molecule files whose molecules "
-             "differ in atom and bond counts (optionally with unimplemented record blocks, or a UNITY_ATOM_ATTR block after the bonds); random line deletions / duplications, token faults that make a token invalid for its field, serial renumbering, single bytes that are no text (file read through the path readers), bond endpoints changed to another valid atom number (counts clause only); plus atheris/libFuzzer "
+             "differ in atom and bond counts (optionally with unimplemented record blocks, or a UNITY_ATOM_ATTR block after the bonds); random line deletions / duplications, token faults that make a token invalid for its field, serial renumbering, single bytes that are no text (file read through the path readers), bond endpoints changed to another valid atom number (counts clause only), damaged ATOM / BOND tag lines, numbers that are no integers in count columns, a file that only lost its final line terminator; plus atheris/libFuzzer "
              "campaigns that decode fuzz bytes into (file, fault sequence incl. arbitrary byte cuts). Oracle: the reader raises, or every returned molecule has the counts of "
              "its own header in the damaged text and the content of the molecule at that position in the undamaged file; a 60 s alarm decides termination.",
         design_ref="DESIGN.md section 5, C10",
@@ -95,14 +95,14 @@ CHECKS = {
              "Molecule.join, Structure.join and a single-precision Molecule subclass (B may be a linker with a second attachment point; fragments may come with non-bonded atoms), and iteratively on multi-attachment cores (all or a subset of the attachment points) exactly as molli combine does, with the real "
              "molli.scripts.combine._ml_assemble compared against the stepwise product (a combination with a defective substituent must yield no product), and end to end through molli.scripts.combine.molli_main on generated core / substituent libraries in every mode (attachment point labels out of atom order) with a structural oracle per product; attachment atoms may sit at index 0 and be untyped terminal atoms. Oracle: atom and bond transfer field by field, new bond "
              "type, proper rigid fit of each fragment (own Kabsch, mirror detected separately), bond length, frame-free bond-direction test from both fragments, charge / "
-             "multiplicity, bit-identical coordinates under two np.random states, sources unchanged, nothing shared; a second join after in-place edits of both fragments is judged the same way.",
+             "multiplicity, bit-identical coordinates under two np.random states, sources unchanged, nothing shared; a second join after in-place edits of both fragments (A also loses an atom) is judged the same way.",
         design_ref="DESIGN.md section 5, C12",
         note="Rotamer about the new bond not prescribed under optimize_rotation; partial charges of the product not asserted; combine.py's loop restated (openbabel import).",
         technique="property-based testing with constructive 3-D fragment generators and an independent geometric oracle",
     ),
     "C13": dict(
         category="exploration",
-        text="Every labelled fragment of the 7 bundled .cdxml files (exhaustive) and of generated variants (top-level objects permuted, page translated, ids renumbered (also to small numbers that coincide with atomic numbers), "
+        text="Every labelled fragment of the 7 bundled .cdxml files (exhaustive) and of generated variants (top-level objects permuted, page translated, ids renumbered (also to small numbers that coincide with atomic numbers), a bond-less fragment stored first on the page, "
              "<n> children permuted, each with its wedge<->hash mirrored twin) is parsed and compared with an independent ElementTree walk of the same file "
              "(attributed-graph isomorphism incl. isotopes, charges, radicals, attachment points, hydrogen hints, bond types, hapto expansion, nested fragments), total charge / "
              "multiplicity, two parses under different np.random states, the same label asked again after the caller edited the first result, label -> fragment resolution, the other labels parsed before and after a request for a deliberately damaged fragment failed, centre-level handedness inversion under mirroring, and an absolute "
@@ -127,7 +127,7 @@ CHECKS = {
         category="exploration",
         text="Exhaustive leg: all labelled simple graphs on <=5 (quick) / <=6 (thorough) atoms with every start atom, every (start, neighbour) direction and every bond; random leg: "
              "generated forests with ring closures up to 40 atoms as Connectivity / Molecule / ConformerEnsemble / Substructure view of a bigger molecule, atoms named to the API as objects, integer indices, labels or Elements; FractionalOrder bonds; bond types as members or plain integers; matching leg: patterns cut from the source (wildcard, own bond "
-             "types, absent; source and pattern atoms carry unrelated atom types; bonds of every BondType member; connected and two-piece patterns; query - in-place edit - query again; match() with one keyword callback at a time). References written for this harness: BFS distances, low-link bridge finder (cross-checked with networkx), backtracking induced-embedding search; the "
+             "types, absent; source and pattern atoms carry unrelated atom types; bonds of every BondType member; connected and two-piece patterns; mappings collected before they are looked at; the ring test asked with an equal bond object; query - in-place edit - query again; match() with one keyword callback at a time). References written for this harness: BFS distances, low-link bridge finder (cross-checked with networkx), backtracking induced-embedding search; the "
              "SET of returned mappings must equal the reference set.",
         design_ref="DESIGN.md section 5, C15",
         note="_edge_match's type rules beyond the statement are only exercised where every rule is satisfied.",
@@ -136,7 +136,7 @@ CHECKS = {
     "C16": dict(
         category="exploration",
         text="Molecules grown atom by atom from tetrahedral / trigonal templates (non-degenerate by construction; target neighbour-count class drawn first; formal charges, "
-             "radicals, multiple / aromatic bonds, hints, metal / halogen bystanders, neighbours flagged as coordination centres; random, as-built and exactly-z-aligned orientations) and every labelled fragment of the bundled "
+             "radicals, multiple / aromatic bonds, hints, metal / halogen bystanders, neighbours flagged as coordination centres, atoms that were another element first; random, as-built and exactly-z-aligned orientations) and every labelled fragment of the bundled "
              "CDXML files go through add_implicit_hydrogens. Oracle: before/after snapshots (atoms, bonds, coordinates, charges untouched), every new atom is a singly bonded H on a "
              "group 13-16 atom, per-centre count from the harness' own valence table or the hint, X-H distance, finite coordinates, direction away from the neighbour centroid, "
              "idempotence on hint-free molecules; molecule-level charge / multiplicity / name / attributes unchanged; the named-atoms call form touches only the named atoms. The (neighbours x hydrogens) class histogram is reported.",
@@ -148,7 +148,7 @@ CHECKS = {
         category="fault_enumeration",
         text="Binding: ALL sequences of <=3/<=4 job accesses over three driver instances x {single, vectorised job} x {used at once, handle kept and used later}, plus in-place reconfiguration of a driver, for a harness "
              "DriverBase subclass and for XTBDriver; the prepared JobInput must carry that driver's executable / nprocs / environment. Execution: generated JobInputs (1-4 sh commands, "
-             "first failing command at every position, text / binary files incl. CR LF and NUL bytes, output texts with significant whitespace inside quoted arguments, env override (also of PATH, programs named without a directory) vs inherited, every return-file plan) run by run_local() in a forked "
+             "first failing command at every position, text / binary files incl. CR LF and NUL bytes, output texts with significant whitespace inside quoted arguments, env override (also of PATH, programs named without a directory) vs inherited, every return-file plan incl. files that exist and are empty) run by run_local() in a forked "
              "child and by the real _molli_run; oracle from marker files written by the commands themselves: order and stop-at-first-failure, private directory under scratch with exactly "
              "the input files byte for byte, environment, captured stdout/stderr, returned files, input hash, exit status iff, no scratch residue.",
         design_ref="DESIGN.md section 5, C17",
@@ -168,8 +168,8 @@ CHECKS = {
     "C19": dict(
         category="exploration",
         text="Five generated-input legs on the shipped extension and the Python descriptors (12 kernel names x float widths x five memory layouts x shapes incl. empty vs. a float64 numpy "
-             "reference; rectangular_grid lattice / spacing / containment / centring / count; nearest_atom_index with the cut-off passed, for ensembles and single geometries (2-40 atoms), asked again after the same objects were moved in place; prune bounds likewise; grid dtype option; "
-             "aso / aeif (weighted / unweighted, conformer weights that may be exactly zero, an allocation failure injected into the distance kernel, ensembles of 70-257 conformers) vs. the van-der-Waals-sphere definition with the float32 rounding band excluded and counted) plus a native leg: molli_xt/distance.cpp of the working tree is "
+             "reference; rectangular_grid lattice / spacing / containment / centring / count; nearest_atom_index with the cut-off passed, for ensembles and single geometries (2-40 atoms), asked again after the same objects were moved in place, structures of 33000-66000 atoms; prune bounds likewise; grid dtype option; "
+             "aso / aeif (weighted / unweighted, conformer weights that may be exactly zero, an allocation failure injected into the distance kernel, ensembles of 70-257 conformers, an isomer of the same composition evaluated first) vs. the van-der-Waals-sphere definition with the float32 rounding band excluded and counted) plus a native leg: molli_xt/distance.cpp of the working tree is "
              "compiled with clang++ under ASan + UBSan + libFuzzer against a header shim standing in for pybind11, and every registered name is fuzzed with the oracle inside the target.",
         design_ref="DESIGN.md section 5, C19",
         note="The shipped .so cannot be rebuilt (pybind11 absent): an edit to the C++ kernels is seen by the native leg only, an edit to pybind11-level dispatch only after a rebuild. "
@@ -180,7 +180,7 @@ CHECKS = {
         category="exploration",
         text="Bounded-exhaustive (all op sequences up to length 4/5 over an 18-letter alphabet on two raw UKVFile handles) plus random "
              "model-based histories on raw handles and on Collection sessions with stale handles and four buffer sizes, each compared "
-             "step by step with an insertion-ordered reference map; raw histories also contain puts whose stream write fails (injected OSError / MemoryError / KeyboardInterrupt / str value) and handle objects that are pickled / copied / deep-copied with the copy opened, listed and closed; Collection histories contain puts inside reading() on unbuffered handles (must fail and leave the listing alone) and write sessions left through an exception of the caller's own (the puts that succeeded stay stored); comments / descriptor blocks with edge whitespace must be preserved. Exploration is the right level: the claim is over histories, and "
+             "step by step with an insertion-ordered reference map; raw histories also contain puts whose stream write fails (injected OSError / MemoryError / KeyboardInterrupt / str value) and handle objects that are pickled / copied / deep-copied with the copy opened, listed and closed; Collection histories contain puts inside reading() on unbuffered handles (must fail and leave the listing alone; readonly collections refuse every put whatever their buffer) and write sessions left through an exception of the caller's own (the puts that succeeded stay stored); comments / descriptor blocks with edge whitespace must be preserved. Exploration is the right level: the claim is over histories, and "
              "a reference model decides every step; no absence proof is claimed beyond the enumerated bound.",
         design_ref="DESIGN.md section 5, C02",
         note="Trusted: the reference model in vf/props/c02.py; at most one raw writer at a time; mode 'w' only creates; python file "
@@ -192,7 +192,7 @@ CHECKS = {
         text="For each generated (committed records, append session, recovery session) the write stream of the session is recorded and EVERY byte "
              "prefix of it is materialised as a crash image (exhaustive per session); each image is reopened read-only (keys / get and the bulk views items / values), the session is alternatively INTERRUPTED (KeyboardInterrupt out of a stream write, orderly wind-down with records still queued), reopened for append with "
              "recovery puts (incl. re-using the torn key; every record is also read inside the recovery session), crashed a second time at every byte of the recovery stream, and taken through the same recovery by ONE long-lived handle / Collection object (re-used across sessions, optionally already used before the crash image appeared, with or without a reading use in between). Oracle: committed records exact, "
-             "session records all-or-nothing, nothing foreign listed. Fault enumeration over crash points is exactly the property's quantifier.",
+             "session records all-or-nothing, nothing foreign listed; record names may be multi-byte UTF-8, values may be all zero bytes. Fault enumeration over crash points is exactly the property's quantifier.",
         design_ref="DESIGN.md section 5, C03",
         note="Crash model = prefix of the bytes handed to the file object in call order (no reordering below the file API; if the recorded writes do not reproduce the file, the bytes that differ are taken to appear in file order); torn file header excluded; "
              "records > 8 kB (up to just over 1 MiB, thorough 4 MiB) are sampled (every 16th..65536th offset + all offsets near field boundaries), not exhaustive.",
@@ -200,9 +200,9 @@ CHECKS = {
     ),
     "C04": dict(
         category="fault_enumeration",
-        text="(a) harness-owned schedules: all sequences of <=2/<=3 sessions over 18 kinds (a writing session that first reads an existing record, a record under the empty key, another process killed in mid-append between two sessions among them; 12 failing, faults injected at body (Exception, KeyboardInterrupt, SystemExit) / encoder / flush-time "
+        text="(a) harness-owned schedules: all sequences of <=2/<=3 sessions over 19 kinds (a caught mid-session flush error on a small-buffer handle, a writing session that first reads an existing record, a record under the empty key, another process killed in mid-append between two sessions among them; 12 failing, faults injected at body (Exception, KeyboardInterrupt, SystemExit) / encoder / flush-time "
              "backend write / stream write inside UKVFile.put / end_write / end_read / begin_write / begin_read) on handles living in three processes, with a lock probe from a fresh process after every session; "
-             "(b) a handle constructor of another process held (harness-owned gate) right before its first lock acquisition while this process creates the library and completes sessions; (c) another process sitting inside a session (gate) while this one asks with timeout 0 / 0.0 / 0.05 / 0.3: TimeoutError, never an entered session - also when the holder unpickles / deep-copies an idle handle of the same library inside its session, or a third process that constructed a handle earlier exits normally meanwhile, or the holder lets go of another handle whose last request had timed out; (d) handles pickled and unpickled after they were used; (e) real 8-16 process schedules with private scratch directories per process, the processes reaching the library through three spellings of its path (plain, sub/.., symlinked directory), with random delays whose oracle (timestamps taken inside the protected body, hand-over after failing sessions) "
+             "(b) a handle constructor of another process held (harness-owned gate) right before its first lock acquisition while this process creates the library and completes sessions; (c) another process sitting inside a session (gate) while this one asks with timeout 0 / 0.0 / 0.05 / 0.3: TimeoutError, never an entered session - also when the holder unpickles / deep-copies an idle handle of the same library inside its session, or a third process that constructed a handle earlier exits normally meanwhile, the holder lets go of another handle whose last request had timed out, or names the library by a relative path after a chdir; (d) handles pickled and unpickled after they were used; (e) real 8-16 process schedules with private scratch directories per process, the processes reaching the library through three spellings of its path (plain, sub/.., symlinked directory), with random delays whose oracle (timestamps taken inside the protected body, hand-over after failing sessions) "
              "cannot misfire on correct locking. Real interleavings are sampled, only session-granular schedules are exhaustive.",
         design_ref="DESIGN.md section 5, C04",
         note="Threads sharing a handle and nested same-process sessions are outside the claim; CLOCK_MONOTONIC is system-wide on Linux; fault injection by "
